@@ -296,17 +296,20 @@ def matchRe (s : Str) : Bool :=
   let ls := splitDot s
   ls.dropLast.all labelOk && tldOk (ls.getLastD [])
 
+/-- `if s[len(s)-1] == '.' { s = s[:len(s)-1] }` -/
+def stripDot (s : Str) : Str := if s.getLast? = some 46 then s.dropLast else s
+
+/-- `validHostname` from the length test on (lower-cased, trailing dot removed) -/
+def hostnameCore (s : Str) : Bool :=
+  if s.length > 253 then false
+  else if (splitDot s).any (fun l => l.length < 1 || l.length > 63) then false
+  else
+    let m := matchRe s
+    if !m && !s.contains 46 then true else m
+
 /-- `validHostname` as repaired (the length limit is 253 without the trailing dot, as documented) -/
 def validHostname (h : Str) : Bool :=
-  if h = [] then false
-  else
-    let s := goLower h
-    let s := if s.getLast? = some 46 then s.dropLast else s
-    if s.length > 253 then false
-    else if (splitDot s).any (fun l => l.length < 1 || l.length > 63) then false
-    else
-      let m := matchRe s
-      if !m && !s.contains 46 then true else m
+  if h = [] then false else hostnameCore (stripDot (goLower h))
 
 /-! ### `Address` methods (address.go:51-268) -/
 
@@ -384,13 +387,13 @@ def getListenAddress (a l : Str) : R :=
       | none => .err
       | some (_, p) =>
         -- `len(strings.Split(listenAddr, ":")) == 1` ⇔ no colon in the (non-empty) listenAddr
-        if !l.contains 58 && p ≠ [] then
+        if l.contains 58 = false ∧ p ≠ [] then
           match splitHostPort (l ++ 58 :: p) with
           | none => .err
           | some _ => .ok (l ++ 58 :: p)
         else match splitHostPort l with
           | none => .err
-          | some (hl, pl) => if hl ≠ [] && pl ≠ [] then .ok l else .err
+          | some (hl, pl) => if hl ≠ [] ∧ pl ≠ [] then .ok l else .err
 
 /-- what `url.Parse(si.URL)` returned, as far as getWSHostPort looks at it (net/url is not
 modelled: the harness supplies these parts, the theorems hold for arbitrary ones) -/
